@@ -14,7 +14,7 @@
    reference algorithm as oracle): "whenever the closest pair is unique the bins equal those
    of the reference streaming algorithm"; and the mean under binary64 ("up to rounding"). *)
 From Coq Require Import QArith ZArith List Sorted Lia.
-From Orso Require Import Gen.C13_Disto Model.C13 Model.C13_Q Proofs.C13_lists Proofs.C13 Proofs.C13_hist.
+From Orso Require Import Gen.C13_Disto Model.C13 Model.C13_Q Proofs.C13_lists Proofs.C13 Proofs.C13_hist Proofs.C13_prog.
 Import ListNotations.
 Open Scope Q_scope.
 
@@ -103,6 +103,21 @@ Theorem C13_dump_load :
   Inv s' /\ bins s' = bins s /\ hmin s' = hmin s /\ hmax s' = hmax s.
 Proof. exact load_any. Qed.
 Print Assumptions C13_dump_load.
+
+
+(* ANY finite program over several histograms - new histogram, weighted update, merge, +,
+   bulk load, dump/load, load of valid bins, estimator queries - whose operations are well
+   formed (capacities >= 2, counts >= 1, operands exist, "+" and dump/load on non-empty
+   histograms, numpy's pairs with counts >= 0 and not all 0): no operation raises and every
+   histogram observed along the way satisfies the invariant.  Any arithmetic.  This is the very
+   interpreter ([run_prog]) the correspondence evaluates on the programs the implementation ran. *)
+Theorem C13_any_program :
+  forall (fadd fsub fmul fdiv : Q -> Q -> Q) (fofZ : Z -> Q) (ftrunc : Q -> Z)
+         (p : list (@op Q)) (e : @env Q),
+  env_inv e -> prog_ok fadd fsub fmul fdiv fofZ ftrunc e p ->
+  Forall obs_ok (run_prog (AA fadd fsub fmul fdiv fofZ ftrunc) e p).
+Proof. exact run_prog_ok. Qed.
+Print Assumptions C13_any_program.
 
 (* the default capacity the source gives a reloaded histogram satisfies that premise *)
 Theorem C13_default_capacity : (2 <= BIN_COUNT)%nat /\ (1 <= BULK_FACTOR)%nat.
